@@ -124,10 +124,12 @@ def oracle(case, limit_n):
     cv = np.array(c, dtype=np.int64)
     Qm = np.array(Q, dtype=np.int64).reshape(n, n)
     nodes = [(nd.get_window()[0], nd.get_window()[1]) for nd in obj.nodes]
-    # strict-timing claim: depot-first history, and a depot self-arc that keeps a waiting vehicle inside the depot window
+    # strict-timing claim (C07_strict_time_all_histories): EVERY strict history -- the depot chosen or moved at any
+    # time -- whose arc currently stored under (0,0) keeps a waiting vehicle inside the depot window
     self_ok = nodes[0][1] == INF or arcd[(0, 0)][0] <= 0
-    strict_applies = case["strict"] and S.depot_first(case) and self_ok
+    strict_applies = case["strict"] and self_ok
     info["strict_applies"] = strict_applies
+    info["depot_moved_after_arcs"] = case["strict"] and not S.depot_first(case)
     for x, W in sorted(ref.items()):
         xv = np.array(x, dtype=np.int64)
         val = int(cv @ xv + xv @ Qm @ xv)
@@ -189,16 +191,35 @@ def shrink(case, clause, limit_n):
     return cur
 
 
-# minimal history of the strict-timing finding: an arc stored while its origin was node 0 (lenient
-# rule) becomes a customer-origin arc when set_depot moves another node to the front
+# regression input of the repaired defect strict/depot-moved-after-arcs (fix a305445): an arc stored while its origin
+# was node 0 (lenient rule) becomes a customer-origin arc when set_depot moves another node to the front.  Before
+# the repair the walk D-A-B-D satisfied the constraints and reached B at 11 > 5; now set_depot re-adds the stored
+# arcs with the rule for their new positions and A->B is dropped.  An ordinary input of the stream: the
+# strict-timing oracle applies to it.
 MOVED_DEPOT = {"kind": "moved", "strict": True, "ops0": [],
                "ops1": [("node", "A", 1, 0, 10), ("node", "B", 1, 0, 5), ("node", "D", 0, 0, INF),
                         ("arc", "A", "B", 3, 1), ("depot", "D"),
                         ("arc", "D", "A", 8, 1), ("arc", "B", "D", 0, 1)],
                "V": 1, "L": 4, "vc": [0]}
+# same situation with a walk left after the repair: A->B (10 + 1 > 5) is dropped, B->A (5 + 2 <= 10) is kept when D
+# moves to the front; D-B-A-D arrives at 0, 3, 5, 5
+MOVED_DEPOT_WALK = {"kind": "moved", "strict": True, "ops0": [],
+                    "ops1": [("node", "A", 1, 0, 10), ("node", "B", 1, 0, 5), ("node", "D", 0, 0, INF),
+                             ("arc", "A", "B", 1, 1), ("arc", "B", "A", 2, 1), ("depot", "D"),
+                             ("arc", "D", "B", 3, 1), ("arc", "A", "D", 0, 1)],
+                    "V": 1, "L": 4, "vc": [0]}
+# the depot moved twice, arcs stored in between, the old depot's self-arc re-checked as a customer self-arc
+MOVED_DEPOT_TWICE = {"kind": "moved", "strict": True, "ops0": [],
+                     "ops1": [("node", "A", 1, 0, 6), ("node", "B", 1, 2, 4), ("node", "D", 0, 0, 9), ("depot", "A"),
+                              ("arc", "A", "B", 4, 1), ("arc", "A", "D", 2, 0), ("depot", "B"), ("arc", "B", "A", 3, 2),
+                              ("arc", "B", "D", 5, 1), ("arc", "D", "A", 0, 1), ("depot", "D"),
+                              ("arc", "D", "A", 1, 1), ("arc", "D", "B", 2, 1), ("arc", "A", "D", 3, 1), ("arc", "B", "D", 5, 1),
+                              ("arc", "A", "B", 0, 1)],
+                     "V": 2, "L": 4, "vc": [0, 1]}
+REGRESSION = [MOVED_DEPOT, MOVED_DEPOT_WALK, MOVED_DEPOT_TWICE]
 
 
-# second input class outside the strict-timing hypothesis: the depot self-arc overwritten with a positive travel
+# input class outside the strict-timing hypothesis: the depot self-arc overwritten with a positive travel
 # time while the depot window is finite (every depot stay then costs time)
 SLOW_SELF_ARC = {"kind": "api", "strict": True, "ops0": [],
                  "ops1": [("node", "D", 0, 0, 4), ("node", "A", 1, 0, 4), ("depot", "D"), ("arc", "D", "D", 3, 0),
@@ -221,30 +242,17 @@ def late_walk(case):
     return None
 
 
-def moved_depot_probe(ctx):
-    """Strict mode, depot moved after arcs were stored: the walk D-A-B-D is accepted although it reaches B at
-    time 11 > 5.  Reported as KNOWN-FINDING once known_findings.json lists the signature; until then it is
-    recorded in the evidence only (the check's own stream keeps to depot-first histories, see notes/C07.md)."""
-    sig = "strict/depot-moved-after-arcs"
+def documented_probes(ctx):
+    """Evidence only: what the regression inputs of the repaired defect look like now (no late walk), and the one
+    input class that stays outside the strict-timing hypothesis (depot self-arc overwritten with a positive time)."""
     obj, out = S.observe(MOVED_DEPOT)
-    arcd = dict(out["arcs"])
-    nodes = [(nd.get_window()[0], nd.get_window()[1]) for nd in obj.nodes]
-    late = None
-    for W in S.walk_assignments(set(arcd), 1, 4, out["N"]):
-        w = W[0]
-        t = nodes[0][0]
-        for s in range(1, 4):
-            t = max(nodes[w[s]][0], t + arcd[(w[s - 1], w[s])][0])
-            if t > nodes[w[s]][1]:
-                late = (list(w), s, t, nodes[w[s]][1])
-    ctx.cov["strict_after_moved_depot"] = {"history": MOVED_DEPOT["ops1"], "late_walk": late,
-                                           "meaning": "walk, position, arrival time, window end"}
+    ctx.cov["strict_after_moved_depot"] = {"history": MOVED_DEPOT["ops1"], "arcs_kept": [list(k) for k, _ in out["arcs"]],
+                                           "late_walk": late_walk(MOVED_DEPOT),
+                                           "late_walk_second_input": late_walk(MOVED_DEPOT_WALK),
+                                           "meaning": "repaired in a305445: late_walk must be null (walk, position, arrival time, "
+                                                      "window end otherwise); the oracle treats these histories as ordinary inputs"}
     ctx.cov["strict_with_slow_depot_self_arc"] = {"history": SLOW_SELF_ARC["ops1"], "late_walk": late_walk(SLOW_SELF_ARC),
                                                   "meaning": "walk, position, arrival time, window end"}
-    if late and any(f.get("property") == ctx.pid and f.get("status") == "open" and f.get("signature") == sig
-                    for f in ctx.findings):
-        ctx.violation(sig, f"strict mode after set_depot moved the depot: walk {late[0]} arrives at time {late[2]} > {late[3]}",
-                      {"case": MOVED_DEPOT}, True)
 
 
 def run(ctx):
@@ -266,7 +274,7 @@ def run(ctx):
     reported = set()
     seen = set()
     for k in range(n_cases):
-        case = S.gen_case(rng)
+        case = REGRESSION[k] if k < len(REGRESSION) else S.gen_case(rng)
         fail, info = oracle(case, limit_n)
         if fail and fail[0] not in reported:
             reported.add(fail[0])
@@ -291,7 +299,11 @@ def run(ctx):
             hyp_terms.append((len(cases) - 1, terms[-1]))
             if info.get("strict_applies"):
                 strict_terms.append((len(cases) - 1, terms[-1]))
-                dist["strict-timing claim applies (strict, depot first, harmless depot self-arc)"] += 1
+                dist["strict-timing claim applies (strict, harmless depot self-arc)"] += 1
+                if info.get("depot_moved_after_arcs"):
+                    dist["strict-timing claim applied after set_depot moved the depot over stored arcs"] += 1
+                    if info["walks"]:
+                        dist["... of which with at least one walk assignment"] += 1
         dist[f"kind={case['kind']}"] += 1
         dist[f"V={case['V']}"] += 1
         dist[f"L={case['L']}"] += 1
@@ -315,10 +327,12 @@ def run(ctx):
     ctx.cov["rule"] = ("random construction histories of the sequence formulation (graph handed to the constructor, arcs added through "
                        "the object, everything through the object, no depot call, depot moved after arcs), 1-4 customers, windows in 0..8, "
                        "arc density 0.2-1, costs -3..6, V in 0..3, L in 2..5, vehicle costs partly non-zero, strict and non-strict; "
+                       "the stream starts with three fixed regression histories of the repaired defect strict/depot-moved-after-arcs; "
                        "non-trivial = distinct instance inside the hypotheses that has at least one walk assignment")
     ctx.assumptions.append("vehicle_cost has max_vehicles entries (set_max_vehicles / make_feasible keep it so); arc keys lie inside the node list (C15)")
-    ctx.assumptions.append("strict-timing oracle and theorem: depot-first histories (no set_depot on the object moves a node after arcs were stored)")
-    moved_depot_probe(ctx)
+    ctx.assumptions.append("strict-timing oracle and theorem: every strict history (depot chosen or moved at any time) whose arc stored under "
+                           "(0,0) keeps a waiting vehicle inside the depot window (not: add_arc(depot, depot, t > 0) under a finite depot window)")
+    documented_probes(ctx)
     mism, err = ctx.coq_mismatches("seq", S.HEADER, "scase", "check_scase", terms, shard=28)
     if ctx.has_concrete():
         mism = []                 # the breakage is already reported with a concrete failing input
